@@ -342,8 +342,8 @@ class RefModel:
         for j in range(d):
             Xc.append({s["name"]: self.ph["xr:" + s["name"]][idx * d + j] for s in self.states})
             Z.append({s["name"]: self.ph["zr:" + s["name"]][idx * d + j] for s in self.algs})
-            tr.append(float(self.ph["tr"][idx * d + j]))
         h = float(self.h[k] / self.M)
+        tr = [float(self.tc[k] + i * h + self.tau[j] * h) for j in range(d)]   # collocation times, independent
         if i == self.M - 1:
             xnext = {s["name"]: self.ph["xc:" + s["name"]][k + 1] for s in self.states}
         else:
